@@ -458,7 +458,7 @@ def _gen_integrand(g: G, m, depth):
     els = spec["elements"]
     K = gen_scalar(g, m, depth) if g.chance(0.8) else ["lit", 1.0]
     k_on_test = g.chance(0.3)
-    if g.complex and arity >= 1 and g.chance(0.15):
+    if g.complex and arity >= 1 and g.chance(0.25):
         # a bare complex literal in the conjugated slot of inner(): the kernel must use its conjugate
         K = ["clit", g.pick(LITS), g.pick(LITS)]
         k_on_test = True
